@@ -220,7 +220,8 @@ Proof. vm_compute. reflexivity. Qed.
 (* ========================================================================
    Text layer (src/peripheral/broker/etrade.rs): Model/EtradeText.v,
    Spec/EtradeLayout.v; proofs in Proofs/EtradeTextRT.v, EtradeTextProps.v.   *)
-From ACB Require Import Model.QText Model.EtradeText Spec.EtradeLayout Proofs.EtradeTextRT Proofs.EtradeTextProps.
+From ACB Require Import Model.QText Model.EtradeText Spec.EtradeLayout Proofs.EtradeTextRT Proofs.EtradeTextProps
+  Proofs.EtradeTextESPP Proofs.EtradeTextESO Proofs.EtradeTextTotal.
 
 (* The statement's data is returned exactly: for EVERY well-formed release
    confirmation (any symbol of upper-case letters and dots, any valid date, any
@@ -255,30 +256,38 @@ Check C19_tc_post_text_roundtrip : forall st r,
   wf_post r = true -> parse_tc_post (render_tc_post st r) = Ok (post_record r).
 Print Assumptions C19_tc_post_text_roundtrip.
 
-(* The other three kinds: the full statements, and what is proved of them
-   (instances by computation: the unit-test documents of etrade.rs rebuilt,
-   with and without sell-to-cover, three grants, three trade rows incl. a
-   purchase and a dotted symbol, both styles).  The check evaluates the same
-   statements on every generated document. *)
-Definition C19_text_roundtrips_full : Prop :=
-  espp_roundtrip_full /\ eso_roundtrip_full /\ pre_roundtrip_full.
+(* ESPP purchase confirmations: any symbol, any valid date, amounts digits.digits of at most 28
+   digits, each of the three sell-to-cover lines (shares sold, sale price, fees) present or absent
+   independently, both styles. *)
+Theorem C19_espp_text_roundtrip : forall st r,
+  wf_espp r = true -> parse_espp (render_espp st r) = Ok (espp_record r).
+Proof. exact espp_text_roundtrip. Qed.
+Check C19_espp_text_roundtrip : forall st r,
+  wf_espp r = true -> parse_espp (render_espp st r) = Ok (espp_record r).
+Print Assumptions C19_espp_text_roundtrip.
+
+(* Option-exercise confirmations: any number n >= 1 of grants (grant numbers of at most 19 digits, amounts
+   with thousands separators, a common sale price, a fee sum that does not overflow), any exercise type of
+   words, any valid date, both styles: n grants in, n benefits out, the sell-to-cover on the last. *)
+Theorem C19_eso_text_roundtrip : forall st r,
+  wf_eso r = true -> parse_eso (render_eso st r) = Ok (eso_records r).
+Proof. exact eso_text_roundtrip. Qed.
+Check C19_eso_text_roundtrip : forall st r,
+  wf_eso r = true -> parse_eso (render_eso st r) = Ok (eso_records r).
+Print Assumptions C19_eso_text_roundtrip.
+
+(* Pre-2023 trade confirmations (any number >= 1 of rows): the full statement, and what is proved of it
+   (an instance by computation: the unit-test document of etrade.rs rebuilt, three rows incl. a purchase, a
+   dotted symbol and a fee-only row, both styles).  The check evaluates the same statement on every generated
+   document. *)
+Definition C19_text_roundtrips_full : Prop := pre_roundtrip_full.
 Theorem C19_text_roundtrips_partial :
-  forallb (fun st => forallb (fun stc =>
-     wf_espp (ex_espp stc) && res_eqb tbenefit_eqb (parse_espp (render_espp st (ex_espp stc))) (espp_record (ex_espp stc)))
-     [true; false]) [true; false] = true
-  /\ forallb (fun st => wf_eso ex_eso
-       && res_eqb (list_eqb tbenefit_eqb) (parse_eso (render_eso st ex_eso)) (eso_records ex_eso)) [true; false] = true
-  /\ forallb (fun st => wf_pre ex_pre
+  forallb (fun st => wf_pre ex_pre
        && res_eqb (list_eqb ttrade_eqb) (parse_tc_pre (render_tc_pre st ex_pre))
             (pre_records (pr_acct ex_pre) 1 (pr_rows ex_pre))) [true; false] = true.
-Proof. exact (conj espp_roundtrip_instances (conj eso_roundtrip_instances pre_roundtrip_instances)). Qed.
+Proof. exact pre_roundtrip_instances. Qed.
 Check C19_text_roundtrips_partial :
-  forallb (fun st => forallb (fun stc =>
-     wf_espp (ex_espp stc) && res_eqb tbenefit_eqb (parse_espp (render_espp st (ex_espp stc))) (espp_record (ex_espp stc)))
-     [true; false]) [true; false] = true
-  /\ forallb (fun st => wf_eso ex_eso
-       && res_eqb (list_eqb tbenefit_eqb) (parse_eso (render_eso st ex_eso)) (eso_records ex_eso)) [true; false] = true
-  /\ forallb (fun st => wf_pre ex_pre
+  forallb (fun st => wf_pre ex_pre
        && res_eqb (list_eqb ttrade_eqb) (parse_tc_pre (render_tc_pre st ex_pre))
             (pre_records (pr_acct ex_pre) 1 (pr_rows ex_pre))) [true; false] = true.
 Print Assumptions C19_text_roundtrips_partial.
@@ -290,13 +299,22 @@ Proof. exact doc_never_panics_refuted. Qed.
 Check C19_text_never_panics_refuted : exists s, parse_doc s = Panic PanicOverflow.
 Print Assumptions C19_text_never_panics_refuted.
 
-(* what is proved of the positive side: the RSU and ESPP parsers never panic *)
-Definition C19_text_panics_only_in_eso_full : Prop :=
-  forall s, classify_doc s <> Some KEso -> forall p, parse_text s <> Panic p.
-Theorem C19_text_never_panics_partial : forall s p, parse_rsu s <> Panic p /\ parse_espp s <> Panic p.
-Proof. intros s p. split; [apply parse_rsu_no_panic|apply parse_espp_no_panic]. Qed.
-Check C19_text_never_panics_partial : forall s p, parse_rsu s <> Panic p /\ parse_espp s <> Panic p.
-Print Assumptions C19_text_never_panics_partial.
+(* ... and that is the ONLY panic of the text layer: a text that is not classified as an option-exercise
+   confirmation never panics (RSU, ESPP and both trade parsers; the commission + fee addition of two
+   \d+\.\d+ amounts cannot overflow: each is at most (2^96-1)/10), and inside an exercise confirmation the
+   only panic is the overflow of the fee sum. *)
+Theorem C19_text_panics_only_in_eso : forall s,
+  classify_doc s <> Some KEso -> forall p, parse_text s <> Panic p.
+Proof. exact text_panics_only_in_eso. Qed.
+Check C19_text_panics_only_in_eso : forall s,
+  classify_doc s <> Some KEso -> forall p, parse_text s <> Panic p.
+Print Assumptions C19_text_panics_only_in_eso.
+Theorem C19_text_panic_is_eso_fee_overflow : forall s p,
+  parse_text s = Panic p -> classify_doc s = Some KEso /\ p = PanicOverflow.
+Proof. exact eso_panic_is_fee_overflow. Qed.
+Check C19_text_panic_is_eso_fee_overflow : forall s p,
+  parse_text s = Panic p -> classify_doc s = Some KEso /\ p = PanicOverflow.
+Print Assumptions C19_text_panic_is_eso_fee_overflow.
 
 (* Option exercises (after the fix c454485 of parse_eso_data): parse_eso either
    reports an error or returns EXACTLY one benefit per `Grant <n>` marker of the
